@@ -122,7 +122,8 @@ def run_case(case, ctx):
     ctx.gate("without_validation_compared")
     if len(r3.sizes) != 0 or len(r3.data_vars) != 0:
         ctx.violation("right-dataset-not-empty-without-validation", f"right dataset has {list(r3.data_vars)}", case, desc=desc)
-    if not fill and keys[-1] == [k for k in keys if pipes.kind_of(k) == "validation"][-1]:
+    vkeys = [k for k in keys if pipes.kind_of(k) == "validation"]
+    if not fill and len(vkeys) == 1 and keys[-1] == vkeys[0]:
         if not gen.same(l3["disparity_map"].data, l1["disparity_map"].data):
             ctx.violation("cross-check-changed-left-disparity", f"{gen.first_diffs(l3['disparity_map'].data, l1['disparity_map'].data, 3)}",
                           case, desc=desc)
